@@ -437,6 +437,11 @@ func setupFeeds(e *Env, o core.RunOpts) error {
 	}
 	fa := &FeederActor{Lazy: lazy, ByzP: e.Ch.Intn("cfg.feeder.byz", 80), SkewP: e.Ch.Intn("cfg.feeder.skew", 80), Bystander: w.Users[7]}
 	e.Actors = append(e.Actors, oa, sa, va, fa)
+	if e.Ch.Bool("cfg.restake.paramchurn", 300) {
+		gov := &GovActor{}
+		e.Shared["gov"] = gov
+		e.Actors = append(e.Actors, gov, &RestakeParamChurn{Rate: 10 + e.Ch.Intn("cfg.restake.churnrate", 30)})
+	}
 	e.Monitors = append(e.Monitors, &C06{}, &C07{}, &C15{}, &C16{}, NewC01(), &C09{})
 	e.MaxSteps = e.Ch.Range("cfg.steps", 40, 110)
 	if o.Thorough {
